@@ -167,6 +167,26 @@ def run(tier, seed, replay=None):
                               f"the root folder says {list(cb.tree['./'].profile)}")
             else:
                 chk.nontrivial.add(("late", i))
+            # a file measured again under the same path (an edited file): whatever the report shows next follows the
+            # measurements the code base holds NOW (seeded change C19-27: the flattened list rebuilt only when the number of
+            # files changed)
+            path, ck, lang, ms = es[chk.rng.randrange(0, len(es))]
+            ms2 = [chk.rng.choice([3, 15, 16, 31, 61, 120]) for _ in range(chk.rng.choice([1, 2, 4]))]
+            mm = [Measurement(f"g{n}", Location(n + 1, 1), Location(n + 2, 3), v) for n, v in enumerate(ms2)]
+            cb.add_file(SourceFileEntry(path, ck + "x", lang, sum(ms2), mm))
+            prof2 = list(rep.quality_profile())
+            want2 = [0, 0, 0, 0]
+            for e in cb.files.values():
+                for m in e.measurements():
+                    want2[cat(m.value)] += m.value
+            held = sorted(m.value for e in cb.files.values() for m in e.measurements())
+            flat = sorted(m.value for m in cb.all_measurements())
+            chk.evaluations += 1
+            chk.count("report consulted again after a file was measured again under its path")
+            if prof2 != want2 or held != flat:
+                chk.violation({"entries": es, "measured_again": [path, ms2]},
+                              f"after {path} was measured again ({ms} -> {ms2}) the report shows the profile {prof2} and the lengths {flat}; "
+                              f"the files hold {held}, profile {want2}")
         except Exception as ex:
             chk.violation({"entries": es}, f"building a report step by step raised {type(ex).__name__}: {ex}")
 
